@@ -1,6 +1,5 @@
 """Zero pad and crop data tensor."""
 
-import math
 from collections.abc import Sequence
 
 import torch
@@ -66,11 +65,11 @@ def zero_pad_or_crop(
 
     npad = []
     for old, new in zip(data.shape, new_shape, strict=True):
-        diff = new - old
-        after = math.trunc(diff / 2)
-        before = diff - after
-        npad.append(before)
+        # keep the center sample (index n//2) at the center
+        before = new // 2 - old // 2
+        after = new - old - before
         npad.append(after)
+        npad.append(before)
 
     if any(npad):
         # F.pad expects paddings in reversed order
